@@ -210,8 +210,7 @@ type c11Exec struct {
 	// further, undisturbed budget of polls), and the execution goes on.
 	spun     bool
 	pauseReq atomic.Bool
-	parked   atomic.Bool
-	parkG    atomic.Int64
+	parked   atomic.Int64 // goroutines of the streamer parked at a transaction boundary
 	resMu    sync.Mutex
 	hol      string // first "stall-behind-oversized" observation of the execution
 	holAt    int    // index of the event after which it was seen (-1: stream start)
@@ -238,16 +237,15 @@ func (x *c11Exec) run(events []string) (viols []string, key string, enabled map[
 	}
 	ctx, cancel := context.WithCancel(context.Background())
 	x.pauseReq.Store(false)
-	x.parked.Store(false)
+	x.parked.Store(0)
 	x.resume = make(chan struct{})
 	harnessG := c11Goid()
 	arm := func() {
 		w.SetBudget(c11SpinBudget, func() {
-			if g := c11Goid(); g != harnessG {
-				x.spun = true
-				x.parkG.Store(g)
-				x.pauseReq.Store(true)
-			}
+			// (whichever goroutine the budget ran out in: every streamer goroutine that
+			// starts a transaction from now on is parked, the polling one among them)
+			x.spun = true
+			x.pauseReq.Store(true)
 		})
 	}
 	unpark := func() {
@@ -259,13 +257,13 @@ func (x *c11Exec) run(events []string) (viols []string, key string, enabled map[
 		close(ch)
 	}
 	w.SetExtra(func(p vsql.Point) error {
-		if x.pauseReq.Load() && (p.Kind == vsql.Begin || p.Kind == vsql.Stmt && !p.InTx) && c11Goid() == x.parkG.Load() {
+		if x.pauseReq.Load() && (p.Kind == vsql.Begin || p.Kind == vsql.Stmt && !p.InTx) && c11Goid() != harnessG {
 			x.resMu.Lock()
 			ch := x.resume
 			x.resMu.Unlock()
-			x.parked.Store(true)
+			x.parked.Add(1)
 			<-ch
-			x.parked.Store(false)
+			x.parked.Add(-1)
 		}
 		return nil
 	})
@@ -316,7 +314,7 @@ func (x *c11Exec) run(events []string) (viols []string, key string, enabled map[
 	}
 	quiescent := func(after string) {
 		settleSends()
-		if x.parked.Load() {
+		if x.pauseReq.Load() {
 			// busy loop: one more budget of polls during which nothing else happens
 			arm()
 			unpark()
@@ -324,7 +322,7 @@ func (x *c11Exec) run(events []string) (viols []string, key string, enabled map[
 		}
 		defer func() {
 			arm()
-			if x.parked.Load() {
+			if x.pauseReq.Load() {
 				unpark()
 			}
 		}()
@@ -678,6 +676,13 @@ func runC11(t *testing.T, tier string) int {
 	for _, m := range []int{1, 2, 3} {
 		for _, b := range []int{5, 10, 25, 100, 1000} {
 			cfgs = append(cfgs, c11Cfg{m, b})
+		}
+		if m > 1 {
+			// byte limits that are exactly a SUM of message sizes (10+10, 10+100): a
+			// message that brings the total exactly to the limit fits
+			for _, b := range []int{20, 110} {
+				cfgs = append(cfgs, c11Cfg{m, b})
+			}
 		}
 	}
 	exe, _ := os.Executable()
